@@ -26,6 +26,10 @@ Theorem C10_name_table : forall d, parse_lnam_file_data d <> OutOfFuel.
 Proof. exact lnam_terminates. Qed.
 Theorem C10_marker_list : forall d, parse_vwlb_data d <> OutOfFuel.
 Proof. exact vwlb_terminates. Qed.
+(* the output, too: the marker names handed out are consecutive pieces of the input (their offsets are checked to be in
+   order), so their total size is within three times the input length whatever the offsets are *)
+Theorem C10_marker_output_bounded : forall d ms, parse_vwlb_data d = Ok ms -> names_total ms <= 3 * zlen d.
+Proof. exact vwlb_output_bounded. Qed.
 Theorem C10_palette_json : forall d, clut2rgb d <> OutOfFuel.
 Proof. exact clut2rgb_terminates. Qed.
 Theorem C10_palette_bmp : forall d, clut2palette d <> OutOfFuel.
@@ -55,6 +59,7 @@ Print Assumptions C10_cast_table.
 Print Assumptions C10_key_table.
 Print Assumptions C10_name_table.
 Print Assumptions C10_marker_list.
+Print Assumptions C10_marker_output_bounded.
 Print Assumptions C10_palette_json.
 Print Assumptions C10_palette_bmp.
 Print Assumptions C10_sound_header.
